@@ -504,7 +504,7 @@ class Image:
         return bool(bm[idx >> 3] >> (idx & 7) & 1)
 
     # ---- block mapping ----------------------------------------------------------
-    def extent_tree(self, ino_obj, visit=None, max_nodes=100000):
+    def extent_tree(self, ino_obj, visit=None, max_nodes=100000, strict=True):
         """Walk the extent tree; returns (leaf_extents, node_blocks).  visit(node_block,
         depth, header, raw) is called for every non-root node.  Raises FormatError on a
         malformed tree (bad magic, depth mismatch, cycles)."""
@@ -517,7 +517,9 @@ class Image:
             if magic != EXT_MAGIC:
                 raise FormatError("extent magic bad in %s" % (blkno if blkno else "inode"))
             if depth_expected is not None and depth != depth_expected:
-                raise FormatError("extent depth mismatch")
+                if strict:
+                    raise FormatError("extent depth mismatch")
+                depth = depth_expected      # tolerant: interpret by position in the tree
             if depth > 10:
                 raise FormatError("extent depth absurd")
             cap = (len(buf) - 12) // 12
@@ -550,13 +552,13 @@ class Image:
         walk(ino_obj.i_block, None, 0)
         return extents, nodes
 
-    def block_map(self, ino_obj, max_blocks=1 << 22):
+    def block_map(self, ino_obj, max_blocks=1 << 22, strict=True):
         """Returns (mapping list of (lblk, pblk, count, uninit), metadata blocks list) for
         an inode, for extent- and indirect-mapped inodes."""
         if ino_obj.flags & FL_INLINE_DATA:
             return [], []
         if ino_obj.flags & FL_EXTENTS:
-            ex, nodes = self.extent_tree(ino_obj)
+            ex, nodes = self.extent_tree(ino_obj, strict=strict)
             return [(e.lblk, e.pblk, e.len, e.uninit) for e in ex], [n[0] for n in nodes]
         # classic map
         per = self.bs // 4
